@@ -33,10 +33,17 @@ class Inst:
         self.nontrivial = nontrivial
 
 
+# thorough tier: additional build configurations in which the same rules must hold
+#   B = ppoprf with feature key-sync, C = star-sharks without default features (no_std)
+ALT_CFGS = {"C06": ["C"], "C07": ["C"], "C10": ["B"], "C11": [], "C12": ["B"], "C13": ["B"], "C14": [], "C15": ["B"]}
+
+
 class Ctx:
-    def __init__(self, tier, pid):
+    def __init__(self, tier, pid, cfg_map=None, suffix=""):
         self.tier = tier
         self.pid = pid
+        self.cfg_map = cfg_map or {}
+        self.suffix = suffix
         self._facts = {}
         self._roots = {}
         self.insts = []
@@ -51,6 +58,7 @@ class Ctx:
         self.extra = {}
 
     def F(self, cfg="A"):
+        cfg = self.cfg_map.get(cfg, cfg)
         if cfg not in self._facts:
             self._facts[cfg] = facts.Facts(extract.ensure(cfg))
             self.cfgs_used.add(cfg)
@@ -64,6 +72,7 @@ class Ctx:
 
     def root(self, name, cfg="A", usize_bits=64, opaque=()):
         """SYM analysis of `name` as an entry point (memoised)"""
+        cfg = self.cfg_map.get(cfg, cfg)
         key = (name, cfg, usize_bits, tuple(sorted(opaque)))
         if key not in self._roots:
             F = self.F(cfg)
@@ -86,7 +95,7 @@ class Ctx:
         return self._roots[key]
 
     def add(self, rule, key, ok, detail="", loc="", sample=None, nontrivial=True):
-        self.insts.append(Inst(rule, "%s/%s" % (rule, key), bool(ok), detail, loc, sample, nontrivial))
+        self.insts.append(Inst(rule, "%s/%s%s" % (rule, key, self.suffix), bool(ok), detail, loc, sample, nontrivial))
         return bool(ok)
 
     def floor(self, rule, expected):
@@ -113,19 +122,52 @@ def run_property(pid, tier):
     t0 = time.time()
     ctx = Ctx(tier, pid)
     mod = importlib.import_module("sv.rules." + pid.lower())
-    engine_error = None
-    try:
-        mod.run(ctx)
-    except AnchorMissing as e:
-        ctx.add(pid + ".ANCHOR", "anchor-missing:" + str(e), False,
-                "a function/type this property is anchored in no longer exists: " + str(e))
-    except sym.Unsupported as e:
-        ctx.add(pid + ".ENGINE", "unsupported:" + str(e), False, "analysis cannot handle this tree: " + str(e))
-    # floors: a rule that matches fewer instances than confirmed by hand fails closed
-    for rule, (exp, found) in sorted(ctx.floors.items()):
-        if found < exp:
-            ctx.add(rule, "floor", False,
-                    "rule matched %d instance(s), expected at least %d: the construct it checks has disappeared" % (found, exp))
+    def one_pass(c):
+        try:
+            mod.run(c)
+        except AnchorMissing as e:
+            c.add(pid + ".ANCHOR", "anchor-missing:" + str(e), False,
+                  "a function/type this property is anchored in no longer exists: " + str(e))
+        except sym.Unsupported as e:
+            c.add(pid + ".ENGINE", "unsupported:" + str(e), False, "analysis cannot handle this tree: " + str(e))
+        # floors: a rule that matches fewer instances than confirmed by hand fails closed
+        for rule, (exp, found) in sorted(c.floors.items()):
+            if found < exp:
+                c.add(rule, "floor", False,
+                      "rule matched %d instance(s), expected at least %d: the construct it checks has disappeared" % (found, exp))
+    one_pass(ctx)
+    if tier == "thorough":
+        for alt in ALT_CFGS.get(pid, []):
+            c2 = Ctx(tier, pid, cfg_map={"A": alt}, suffix="@cfg" + alt)
+            one_pass(c2)
+            ctx.insts += c2.insts
+            ctx.cfgs_used |= c2.cfgs_used
+            ctx.notes += c2.notes
+            for k, v in c2.floors.items():
+                ctx.floors[k + "@cfg" + alt] = v
+            for k, v in c2.models_used.items():
+                ctx.models_used[k] = ctx.models_used.get(k, 0) + v
+            for k in ("frames", "block_execs", "call_sites"):
+                ctx.stats[k] += c2.stats[k]
+            ctx.stats["functions_analysed"] |= c2.stats["functions_analysed"]
+        # determinism: the same verdicts under a different hash seed (guards against order-dependent analysis bugs)
+        if not os.environ.get("SV_NO_DETERMINISM_CHECK"):
+            import subprocess
+            env = dict(os.environ, PYTHONHASHSEED="12345", SV_NO_DETERMINISM_CHECK="1", SV_DUMP_VERDICTS="1",
+                       SV_EVIDENCE_DIR=os.path.join(VERIF, ".work", "determinism-%s" % pid))
+            p = subprocess.run([sys.executable, "-m", "sv.check", pid, "thorough"], cwd=VERIF, env=env, capture_output=True, text=True)
+            other = {}
+            for line in p.stdout.splitlines():
+                if line.startswith("VERDICT "):
+                    _, ok_, key_ = line.split(" ", 2)
+                    other[key_] = ok_ == "1"
+            mine = {i.key: i.ok for i in ctx.insts}
+            diff = sorted(k for k in set(mine) | set(other) if mine.get(k) != other.get(k))
+            ctx.add(pid + ".DETERMINISM", "same-verdicts-under-different-hash-seed", not diff,
+                    "verdicts differ between two runs with different PYTHONHASHSEED: %s" % diff[:5], "sv/", sample={"instances_compared": len(mine)})
+    if os.environ.get("SV_DUMP_VERDICTS"):
+        for i in ctx.insts:
+            print("VERDICT %d %s" % (1 if i.ok else 0, i.key))
     known = load_known()
     viol = [i for i in ctx.insts if not i.ok]
     new = []
